@@ -2,16 +2,16 @@
 //
 // Reads src/daemon/gnet/pool.go of the CURRENT tree and writes lean/Sky/Gen/C32Facts.lean:
 //
-//   poolMaps             the fields of ConnectionPool that are maps (the state the strand protects)
-//   directAccessors      functions/methods of package gnet (pool.go) that mention one of those fields
-//                        outside a function literal passed to pool.strand(...)
-//   unstrandedEntries    the direct accessors that can be reached WITHOUT going through pool.strand:
-//                        exported ones, and unexported ones with a call site that is neither inside a
-//                        strand closure nor inside another direct accessor nor after `<-pool.strandDone`
-//                        in Shutdown
-//   shutdownOrder        whether Shutdown closes quit, then receives from strandDone, and only then calls
-//                        disconnectAll / reads the maps
-//   strandShape          whether strand.Strand and processStrand have the select shapes the model assumes
+//	poolMaps             the fields of ConnectionPool that are maps (the state the strand protects)
+//	directAccessors      functions/methods of package gnet (pool.go) that mention one of those fields
+//	                     outside a function literal passed to pool.strand(...)
+//	unstrandedEntries    the direct accessors that can be reached WITHOUT going through pool.strand:
+//	                     exported ones, and unexported ones with a call site that is neither inside a
+//	                     strand closure nor inside another direct accessor nor after `<-pool.strandDone`
+//	                     in Shutdown
+//	shutdownOrder        whether Shutdown closes quit, then receives from strandDone, and only then calls
+//	                     disconnectAll / reads the maps
+//	strandShape          whether strand.Strand and processStrand have the select shapes the model assumes
 //
 // The mutual-exclusion theorem of the model is about the protocol; `unstrandedEntries = []` is the code-level
 // fact that every access to the maps takes part in that protocol.  Anything this tool cannot classify is
@@ -31,6 +31,7 @@ import (
 	"os"
 	"path/filepath"
 	"sort"
+	"strconv"
 	"strings"
 )
 
@@ -304,6 +305,141 @@ func main() {
 		}
 	}
 
+	// 5. handleConnection's error channel: capacity, number of goroutines that send on it, and whether every
+	// goroutine can send at most once (a send inside a loop must be followed directly by `return`)
+	errCap, errProducers, errOnce, errRecvOnce := -1, 0, true, true
+	if hc, ok := fns["handleConnection"]; ok {
+		ast.Inspect(hc.decl.Body, func(n ast.Node) bool {
+			as, ok := n.(*ast.AssignStmt)
+			if !ok || len(as.Lhs) != 1 || len(as.Rhs) != 1 || src(fset, as.Lhs[0]) != "errC" {
+				return true
+			}
+			ce, ok := as.Rhs[0].(*ast.CallExpr)
+			if !ok || src(fset, ce.Fun) != "make" {
+				return true
+			}
+			errCap = 0
+			if len(ce.Args) == 2 {
+				if bl, ok := ce.Args[1].(*ast.BasicLit); ok {
+					if v, err := strconv.Atoi(bl.Value); err == nil {
+						errCap = v
+					} else {
+						die("handleConnection: errC capacity %q is not a literal integer", bl.Value)
+					}
+				} else {
+					die("handleConnection: errC capacity %q is not a literal integer", src(fset, ce.Args[1]))
+				}
+			}
+			return true
+		})
+		if errCap < 0 {
+			die("handleConnection: no `errC := make(chan …)` found")
+		}
+		isErrSend := func(st ast.Stmt) bool {
+			ss, ok := st.(*ast.SendStmt)
+			return ok && src(fset, ss.Chan) == "errC"
+		}
+		// sends outside `go func` literals (none expected), receives in loops
+		var sendsIn func(n ast.Node, inLoop bool) int
+		sendsIn = func(n ast.Node, inLoop bool) int {
+			cnt := 0
+			var walkBlock func(list []ast.Stmt, inLoop bool)
+			var walk func(st ast.Stmt, inLoop bool)
+			walkBlock = func(list []ast.Stmt, inLoop bool) {
+				for i, st := range list {
+					if isErrSend(st) {
+						cnt++
+						if inLoop {
+							if i+1 >= len(list) {
+								errOnce = false
+							} else if _, ok := list[i+1].(*ast.ReturnStmt); !ok {
+								errOnce = false
+							}
+						}
+						continue
+					}
+					walk(st, inLoop)
+				}
+			}
+			walk = func(st ast.Stmt, inLoop bool) {
+				switch x := st.(type) {
+				case *ast.BlockStmt:
+					walkBlock(x.List, inLoop)
+				case *ast.IfStmt:
+					walkBlock(x.Body.List, inLoop)
+					if x.Else != nil {
+						walk(x.Else, inLoop)
+					}
+				case *ast.ForStmt:
+					walkBlock(x.Body.List, true)
+				case *ast.RangeStmt:
+					walkBlock(x.Body.List, true)
+				case *ast.SelectStmt:
+					for _, c := range x.Body.List {
+						walkBlock(c.(*ast.CommClause).Body, inLoop)
+					}
+				case *ast.SwitchStmt:
+					for _, c := range x.Body.List {
+						walkBlock(c.(*ast.CaseClause).Body, inLoop)
+					}
+				case *ast.DeferStmt, *ast.GoStmt:
+					// nested goroutines / defers inside a producer are not expected to send
+					ast.Inspect(st, func(m ast.Node) bool {
+						if ss, ok := m.(*ast.SendStmt); ok && src(fset, ss.Chan) == "errC" {
+							errOnce = false
+						}
+						return true
+					})
+				}
+			}
+			if b, ok := n.(*ast.BlockStmt); ok {
+				walkBlock(b.List, inLoop)
+			}
+			return cnt
+		}
+		for _, st := range hc.decl.Body.List {
+			if gs, ok := st.(*ast.GoStmt); ok {
+				if fl, ok := gs.Call.Fun.(*ast.FuncLit); ok {
+					n := sendsIn(fl.Body, false)
+					if n > 0 {
+						errProducers++
+						// more than one send statement in one goroutine: only fine if they are on exclusive paths
+						// ending in return; keep it simple and require exactly one
+						if n != 1 {
+							errOnce = false
+						}
+					}
+				}
+				continue
+			}
+			// any send to errC outside the goroutines is unexpected
+			ast.Inspect(st, func(m ast.Node) bool {
+				if _, ok := m.(*ast.FuncLit); ok {
+					return false
+				}
+				if ss, ok := m.(*ast.SendStmt); ok && src(fset, ss.Chan) == "errC" {
+					errOnce = false
+				}
+				return true
+			})
+			// receives from errC must not be inside a loop
+			ast.Inspect(st, func(m ast.Node) bool {
+				switch x := m.(type) {
+				case *ast.ForStmt, *ast.RangeStmt:
+					ast.Inspect(x, func(k ast.Node) bool {
+						if ue, ok := k.(*ast.UnaryExpr); ok && ue.Op == token.ARROW && src(fset, ue.X) == "errC" {
+							errRecvOnce = false
+						}
+						return true
+					})
+				}
+				return true
+			})
+		}
+	} else {
+		die("method handleConnection not found")
+	}
+
 	var mapNames []string
 	for n := range maps {
 		mapNames = append(mapNames, n)
@@ -326,6 +462,9 @@ func main() {
 	fmt.Fprintf(&sb, "/-- Shutdown is `close(quit); <-strandDone; …; disconnectAll(); …; <-done` in this order -/\ndef shutdownOrderOK : Bool := %v\n\n", shutdownOK)
 	fmt.Fprintf(&sb, "/-- processStrand is `defer close(strandDone); for { select { case <-quit: return; case req := <-reqC: req.Func() } }` -/\ndef processStrandOK : Bool := %v\n\n", processStrandOK)
 	fmt.Fprintf(&sb, "/-- strand.Strand has exactly the two select loops `quit | send | timer` and `quit | done | timer` -/\ndef strandSelectsOK : Bool := %v\n\n", strandOK)
+	fmt.Fprintf(&sb, "/-- handleConnection: capacity of the per-connection error channel `errC` -/\ndef errChanCap : Nat := %d\n\n", errCap)
+	fmt.Fprintf(&sb, "/-- handleConnection: goroutines that report on `errC` (readLoop, sendLoop, the receiveMessage loop) -/\ndef errProducers : Nat := %d\n\n", errProducers)
+	fmt.Fprintf(&sb, "/-- each of them sends at most once (a send inside a loop is followed directly by `return`), nothing else sends,\nand handleConnection itself receives at most once before `wg.Wait()` -/\ndef errSendOnce : Bool := %v\n\n", errOnce && errRecvOnce)
 	sb.WriteString("end Sky.Gen.C32Facts\n")
 
 	dst := filepath.Join(*out, "Sky/Gen/C32Facts.lean")
